@@ -16,6 +16,7 @@ import FuraxModel.EinsumEval
 import FuraxModel.Diagonal
 import FuraxModel.StokesArith
 import FuraxModel.Acquisition
+import FuraxModel.Valid
 namespace Furax
 open SExp
 
@@ -308,10 +309,45 @@ def handleAcquisition (cmd : String) (args : List SExp) : Option SExp :=
     some (list [atom "ok", ofRat (Acquisition.acquire (1/2 : Rat) kind (← c.rat?) (← s.rat?) sky)])
   | _, _ => none
 
+/-- `(valid OP)` → `(ok T)` | `(ok F REASON)`: the hypotheses of the closed theorems (`WTExpr … listLeafOK`, without
+the invertibility of the operands of the lazy inverses) decided on an encoded operator (FuraxModel/Valid.lean);
+`(valid-T OP)` the same for the hypotheses of `transpose_is_adjoint_closed` (`ValidT o ∧ o.WFT`);
+`(valid-leaf CLASS PARAMS)` the same for the parameters of one leaf;
+`(valid-promises OP)` → `(ok (WRAPPER OPERAND-LEAF-CLASS|expr decided|promise) …)`: the lazy-inverse wrappers of the
+expression, whose operands the theorems assume invertible; `decided`: a rotation or a diagonal without zero entry
+(invertible, a theorem), `promise`: left to the reader -/
+def handleValid (cmd : String) (args : List SExp) : Option SExp :=
+  match cmd, args with
+  | "valid", [a] => do
+    let o ← decOp a
+    match Valid.invalidReason o, Valid.validb o with
+    | none, true => some (list [atom "ok", atom "T"])
+    | some r, false => some (list [atom "ok", atom "F", atom r])
+    | _, _ => some (list [atom "error", atom "INCONSISTENT"])
+  | "valid-T", [a] => do
+    let o ← decOp a
+    match Valid.invalidReasonT o, Valid.validTb o with
+    | none, true => some (list [atom "ok", atom "T"])
+    | some r, false => some (list [atom "ok", atom "F", atom r])
+    | _, _ => some (list [atom "error", atom "INCONSISTENT"])
+  | "valid-leaf", [atom c, p] => do
+    let cls ← LeafCls.ofName? c
+    let ps ← decParams p
+    match Valid.leafReason cls ps, Valid.leafOKb cls ps with
+    | none, true => some (list [atom "ok", atom "T"])
+    | some r, false => some (list [atom "ok", atom "F", atom r])
+    | _, _ => some (list [atom "error", atom "INCONSISTENT"])
+  | "valid-promises", [a] => do
+    let o ← decOp a
+    some (list (atom "ok" :: (Valid.lazyKinds o).map fun (k, c, d) =>
+      list [atom k.name, atom (match c with | some c => c.name | none => "expr"),
+            atom (if d then "decided" else "promise")]))
+  | _, _ => none
+
 def handle (line : String) : String :=
   match SExp.parse line with
   | some (list (atom cmd :: args)) =>
-    match ((handleLevelA cmd args).orElse (fun _ => handleStokes cmd args)).orElse (fun _ => handleToeplitz cmd args) |>.orElse (fun _ => handleAxes cmd args) |>.orElse (fun _ => handleLandscape cmd args) |>.orElse (fun _ => handleConfig cmd args) |>.orElse (fun _ => handleIndex cmd args) |>.orElse (fun _ => handleEinsum cmd args) |>.orElse (fun _ => handleDiagonal cmd args) |>.orElse (fun _ => handleStokesArith cmd args) |>.orElse (fun _ => handleAcquisition cmd args) with
+    match ((handleLevelA cmd args).orElse (fun _ => handleStokes cmd args)).orElse (fun _ => handleToeplitz cmd args) |>.orElse (fun _ => handleAxes cmd args) |>.orElse (fun _ => handleLandscape cmd args) |>.orElse (fun _ => handleConfig cmd args) |>.orElse (fun _ => handleIndex cmd args) |>.orElse (fun _ => handleEinsum cmd args) |>.orElse (fun _ => handleDiagonal cmd args) |>.orElse (fun _ => handleStokesArith cmd args) |>.orElse (fun _ => handleAcquisition cmd args) |>.orElse (fun _ => handleValid cmd args) with
     | some r => r.toStr
     | none => "(bad-request)"
   | _ => "(bad-request)"
